@@ -22,6 +22,7 @@ import (
 	"encoding/json"
 	"fmt"
 	"io"
+	mrand "math/rand"
 	"os"
 	"path/filepath"
 	"sort"
@@ -84,6 +85,8 @@ type vfC04Plan struct {
 	AcceptTimeout time.Duration `json:"accept_timeout"`
 	AcceptDelay   time.Duration `json:"accept_delay"` // the acceptor starts calling Accept this late
 	DialerHangsUp bool          `json:"dialer_hangs_up"` // the dialer closes its connection as soon as Upgrade returns
+	K2            int           `json:"k2"`    // a second fault, on the OTHER end
+	Kind2         string        `json:"kind2"` // err | eof | stall
 }
 
 func (p vfC04Plan) String() string {
@@ -111,6 +114,9 @@ func (p vfC04Plan) String() string {
 	}
 	if p.DialerHangsUp {
 		s += "/hangup"
+	}
+	if p.K2 > 0 {
+		s += fmt.Sprintf("/+%s@%d", p.Kind2, p.K2)
 	}
 	return s
 }
@@ -438,6 +444,13 @@ func vfC04Scenario(t *testing.T, cfg vfC04Cfg, plan vfC04Plan, tr *vfh.Trace, ou
 				go func() { defer wg.Done(); closeListener("race") }()
 			}})
 		}
+		if plan.K2 > 0 {
+			other := a.l
+			if plan.Side == "l" {
+				other = a.d
+			}
+			other.SetFault(&vfc04.Fault{Kind: plan.Kind2, K: plan.K2})
+		}
 	}
 	armConnClose := func(a *att, side string, c transport.CapableConn) {
 		if plan.Kind != "cclose" || plan.Side != side || a.i != 1 {
@@ -703,7 +716,7 @@ func vfC04Run(t *testing.T, cfg vfC04Cfg, plan vfC04Plan, tr *vfh.Trace) (out vf
 // the enumeration
 
 func vfC04Configs() []vfC04Cfg {
-	quick := []vfC04Cfg{{Sec: "noise", Early: true}, {Sec: "noise", Early: false, PSK: "ok"}, {Sec: "tls", Early: true}}
+	quick := []vfC04Cfg{{Sec: "noise", Early: true}, {Sec: "noise", Early: false, PSK: "ok"}, {Sec: "tls", Early: true, PSK: "ok"}, {Sec: "tls", Early: false}}
 	if !vfh.Thorough() {
 		return quick
 	}
@@ -837,8 +850,33 @@ func TestVerifC04Upgrader(t *testing.T) {
 			}
 		}
 		for _, p := range vfC04Specials(cfg, ci == 0) {
-			out := run(cfg, p)
-			_ = out
+			run(cfg, p)
+		}
+		if ci == 0 || vfh.Thorough() {
+			// two faults, one on each end (seeded sample)
+			rnd := mrand.New(mrand.NewSource(vfh.Seed()*7919 + int64(ci)))
+			pairs := 40
+			if vfh.Thorough() {
+				pairs = 150
+			}
+			kinds := []string{"err", "eof", "stall"}
+			for i := 0; i < pairs; i++ {
+				run(cfg, vfC04Plan{Kind: kinds[rnd.Intn(3)], Side: "d", K: 1 + rnd.Intn(nd), Kind2: kinds[rnd.Intn(3)], K2: 1 + rnd.Intn(nl)})
+			}
+		}
+		if ci == 0 && vfh.Thorough() {
+			// a second, healthy attempt runs next to the faulted one
+			for _, side := range []string{"d", "l"} {
+				nops := nd
+				if side == "l" {
+					nops = nl
+				}
+				for k := 1; k <= nops; k++ {
+					for _, kind := range []string{"err", "eof", "stall"} {
+						run(cfg, vfC04Plan{Kind: kind, Side: side, K: k, N: 2})
+					}
+				}
+			}
 		}
 		if ci == 0 {
 			run(cfg, vfC04Plan{Kind: "nilpeer"})
